@@ -91,6 +91,17 @@ func scenario(p params, bounds []int) *vexp.Scenario {
 					ctx.Stash()
 				}
 			}
+			selfSent := false
+			if p.state == "kill-now" || p.state == "fail-restart" || p.state == "fail-grestart" || p.state == "fail-stop" {
+				// the actor sends itself a message from the handler of its OWN termination notice (TellSelf variant of the API):
+				// like any other message it is processed (by the next incarnation, on a restart) or becomes a dead letter
+				t.OnKilled = func(a *vsys.Act, ctx vivid.ActorContext, m *vivid.OnKilled) {
+					if m.Ref.GetPath() == "/p/t" && !selfSent {
+						selfSent = true
+						ctx.TellSelf(vsys.Msg{ID: "mself"})
+					}
+				}
+			}
 			if p.state == "zombie" {
 				t.Restarted = func(*vsys.Act) error { return errors.New("scripted restart failure") }
 			}
@@ -256,7 +267,7 @@ func scenario(p params, bounds []int) *vexp.Scenario {
 			dead := map[string]int{}
 			for _, pb := range w.Pubs[pubsBefore:] {
 				if pb.Type == "DeathLetter" || pb.Type == "DeathLetterEvent" {
-					for _, id := range sent {
+					for _, id := range append(append([]string(nil), sent...), "mself") {
 						if strings.HasPrefix(pb.Detail, "Msg("+id+")") {
 							dead[id]++
 						}
@@ -273,6 +284,9 @@ func scenario(p params, bounds []int) *vexp.Scenario {
 			var outcome []string
 			stashBudget := inStash
 			ids := append([]string(nil), sent...)
+			if selfSent {
+				ids = append(ids, "mself")
+			}
 			sort.Strings(ids)
 			for _, id := range ids {
 				s, d := seen[id], dead[id]
